@@ -174,6 +174,7 @@ def run(check, prog):
                   'DDA accepts any Scatterer', prog.loc(q2, prog.func(q2)))
     cluster(check, prog)
     auto(check, prog)
+    refusals_symmetric(check, prog)
     cscat_interpolation(check, prog)
     work_array_regions(check, prog)
     co_indexed(check, prog)
@@ -193,6 +194,76 @@ def run(check, prog):
     # stack word in the compiled routines)
     _c02.work_arrays_defined(check, prog)
     _c02.status_examined(check, prog)
+
+
+def refusals_symmetric(check, prog):
+    """Q7: what Multisphere refuses does not depend on where the cluster is turned
+    to.  The size guards of `_scsmfo_setup` compare coordinates relative to the
+    centroid with a bound; a cluster turned by pi about the optical axis has these
+    coordinates with the opposite sign, so a comparison of signed coordinates with
+    a positive bound refuses a cluster and computes its mirror image.  Every
+    ordering test of a raising guard whose operand is built from the members'
+    centres takes an absolute value, a norm or an even power of it."""
+    import ast
+    q = 'holopy.scattering.theory.multisphere.Multisphere._scsmfo_setup'
+    fd = prog.func(q)
+    loc = prog.loc(q, fd)
+    # names that hold signed centre coordinates: assigned from an expression that
+    # reads `.centers` / `.center` without an even function around it
+    EVEN = ('abs', 'norm', 'hypot', 'square', 'cartesian_distance', 'fabs', 'absolute')
+
+    def reads_centres(e, names):
+        for n in ast.walk(e):
+            if isinstance(n, ast.Attribute) and n.attr in ('centers', 'center'):
+                return True
+            if isinstance(n, ast.Name) and n.id in names:
+                return True
+        return False
+
+    def signed(e, names):
+        # is there a path from the root of e to a centre read that passes no even
+        # function?
+        if isinstance(e, ast.Call):
+            f = e.func
+            nm = f.attr if isinstance(f, ast.Attribute) else getattr(f, 'id', '')
+            if nm in EVEN:
+                return False
+            return any(signed(a, names) for a in list(e.args) +
+                       [k.value for k in e.keywords]) or (
+                isinstance(f, ast.Attribute) and signed(f.value, names))
+        if isinstance(e, ast.BinOp) and isinstance(e.op, ast.Pow) and \
+                isinstance(e.right, ast.Constant) and e.right.value in (2, 4):
+            return False
+        if isinstance(e, ast.Attribute) and e.attr in ('centers', 'center'):
+            return True
+        if isinstance(e, ast.Name):
+            return e.id in names
+        return any(signed(c, names) for c in ast.iter_child_nodes(e)
+                   if isinstance(c, ast.expr))
+    names = set()
+    for st in ast.walk(fd):
+        if isinstance(st, ast.Assign) and len(st.targets) == 1 and \
+                isinstance(st.targets[0], ast.Name) and signed(st.value, names):
+            names.add(st.targets[0].id)
+    n = 0
+    for st in ast.walk(fd):
+        if isinstance(st, ast.If) and any(isinstance(x, ast.Raise) for b in st.body
+                                          for x in ast.walk(b)):
+            for c in ast.walk(st.test):
+                if isinstance(c, ast.Compare) and len(c.ops) == 1 and \
+                        isinstance(c.ops[0], (ast.Gt, ast.GtE, ast.Lt, ast.LtE)) and \
+                        reads_centres(c, names):
+                    n += 1
+                    bad = signed(c.left, names) or signed(c.comparators[0], names)
+                    check.require(not bad, 'Q7-refusal-symmetric',
+                                  '_scsmfo_setup guard ' + ast.unparse(c)[:50],
+                                  'the refusal looks at magnitudes', '%s:%d' % (
+                                      loc.rpartition(':')[0], c.lineno),
+                                  fail_detail='`%s` compares signed centroid-relative '
+                                  'coordinates: a far sphere at +x is refused, the '
+                                  'same cluster turned by pi (far sphere at -x) is '
+                                  'computed' % ast.unparse(c)[:60])
+    check.floor('ordering guards on the members\' centres in _scsmfo_setup', n, 1)
 
 
 def cluster(check, prog):
